@@ -75,12 +75,12 @@ def _simplest_between(lo: Fraction, hi: Fraction) -> Fraction:
 def unround(v: Any) -> Any:
     """A concrete float constant stands for the simplest rational it rounds to (4 / -5 folded to -0.8 means -4/5,
     1 / 200000 / 300000 folded to 1.6666666666666667e-11 means 1/60000000000): 'up to floating-point rounding of
-    constants the rule folded'.  The simplest rational within 1e-13 (relative) of the float is taken when its
+    constants the rule folded'.  The simplest rational within 2e-15 (relative, a few ulps) of the float is taken when its
     denominator is below 10**12; other floats keep their exact binary value."""
     if isinstance(v, float) and v == v and v not in (float("inf"), float("-inf")) and v != 0:
         f = Fraction(v)
         a = abs(f)
-        eps = a / 10**13
+        eps = a * 2 / 10**15
         g = _simplest_between(a - eps, a + eps)
         if g.denominator < 10**12 and g.numerator < 10**15:
             return g if f > 0 else -g
